@@ -739,7 +739,7 @@ func contextAfterText(c context, s []byte) (context, int) {
 		ret.scriptType = strings.ToLower(string(s[:i]))
 	}
 	// Save the link element's rel attribute value if we are parsing it for the first time.
-	if c.state == stateAttr && c.element.name == "link" && c.attr.name == "rel" {
+	if c.state == stateAttr && c.element.name == "link" && c.attr.name == "rel" && c.linkRel == "" {
 		ret.linkRel = " " + strings.Join(strings.Fields(strings.TrimSpace(strings.ToLower(string(s[:i])))), " ") + " "
 	}
 	if c.delim != delimSpaceOrTagEnd {
